@@ -178,11 +178,24 @@ def sv_array(inst):
     vals = np.array([c * f for f in (0.8, 0.9, 1.0, 1.1, 1.2)], dtype="d")
     wts = np.array(ARR_W, dtype="d")
     v0, w0 = vals.copy(), wts.copy()
-    disp = wmod.ArrayDispersion()
-    disp.set_weights(vals, wts)
+    # one distribution object may be handed to several objects of the same definition (it is the caller's, and it is
+    # an input: what one object is told later must not reach another through it, nor change it)
+    key = (info.id, pd[0], repr(c))
+    if key not in sv_array.shared:
+        disp = wmod.ArrayDispersion()
+        disp.set_weights(vals, wts)
+        sv_array.shared[key] = (disp, vals, wts, v0, w0, snapshot(disp))
+    disp, vals, wts, v0, w0, d0 = sv_array.shared[key]
     inst.set_dispersion(pd[0], disp)
     inst._verif_arrays = (vals, wts, v0, w0)
-    return not (same(vals, v0) and same(wts, w0))
+    inst._verif_disp = (disp, d0)
+    return not (same(vals, v0) and same(wts, w0) and snapshot(disp) == d0)
+sv_array.shared = {}
+
+
+def snapshot(disp):
+    """The distribution object's own attributes, as text."""
+    return sorted((k, value_of(v) if isinstance(v, np.ndarray) else repr(v)) for k, v in vars(disp).items())
 
 
 def sv_apply(inst, pars, cutoff):
@@ -347,6 +360,8 @@ def do_op(st, e):
             val = ["raised", type(exc).__name__]
         arrs = getattr(inst, "_verif_arrays", None)
         arr_changed = arrs is not None and not (same(arrs[0], arrs[2]) and same(arrs[1], arrs[3]))
+        dsp = getattr(inst, "_verif_disp", None)
+        arr_changed = arr_changed or (dsp is not None and snapshot(dsp[0]) != dsp[1])
         return key, val, (not same(before, arg)) or arr_changed
     if op == "clone":
         w, w2 = e["w"], e["w2"]
